@@ -8,6 +8,8 @@
 //	-mode imports  -map "sync=github.com/.../vsync,sync/atomic=..."   rewrite import paths
 //	-mode maprange -maps "expr1,expr2"              for k, v := range <expr>  ->  iteration in an order chosen by vnd.Order
 //	-mode selectstep -func Recv.Method -name stepName   (reserved)
+//	-mode yield    -funcs "Recv.Method,Func,..."   insert vsync.Yield("<name>#<k> <stmt>") before EVERY statement (all nested blocks) of the named functions:
+//	                                                the statements of a function that uses no lock become scheduling points of the cs engine (no-ops outside vsync.Explorer)
 package main
 
 import (
@@ -248,6 +250,57 @@ func main() {
 			}
 		}
 		addImport(f, shimBase+"vnd")
+	case "yield":
+		want := map[string]bool{}
+		for _, n := range strings.Split(*funcs, ",") {
+			if n != "" {
+				want[n] = false
+			}
+		}
+		for _, d := range f.Decls {
+			fd, ok := d.(*ast.FuncDecl)
+			if !ok || fd.Body == nil {
+				continue
+			}
+			name := funcName(fd)
+			if _, ok := want[name]; !ok {
+				continue
+			}
+			want[name] = true
+			k := 0
+			instrument := func(list []ast.Stmt) []ast.Stmt {
+				out := make([]ast.Stmt, 0, 2*len(list))
+				for _, s := range list {
+					txt := strings.Join(strings.Fields(render(s)), " ")
+					if len(txt) > 48 {
+						txt = txt[:48] + "..."
+					}
+					out = append(out, parseStmts(fmt.Sprintf("vsync.Yield(%q)", fmt.Sprintf("%s#%d %s", name, k, txt)))[0], s)
+					k++
+				}
+				return out
+			}
+			ast.Inspect(fd.Body, func(nd ast.Node) bool {
+				switch b := nd.(type) {
+				case *ast.BlockStmt:
+					b.List = instrument(b.List)
+				case *ast.CaseClause:
+					b.Body = instrument(b.Body)
+				case *ast.CommClause:
+					b.Body = instrument(b.Body)
+				}
+				return true
+			})
+			if k == 0 {
+				die(2, "function %s in %s has no statements", name, *in)
+			}
+		}
+		for n, ok := range want {
+			if !ok {
+				die(2, "anchor function %s not found in %s", n, *in)
+			}
+		}
+		addImport(f, shimBase+"vsync")
 	default:
 		die(2, "unknown mode %q", *mode)
 	}
